@@ -161,3 +161,28 @@ func verifRoundTripExecute(r *FrameBodyReader, dest io.Writer, version primitive
 //@   ensures consistency-bytes: result == nil ==> forall(k, 0, 2, dest.$out[old(dest.$n) + 2 + old(n1) + old(n2) + k] == r.Body[old(p1) + old(n2) + k])
 //@   ensures rest-bytes: result == nil ==> forall(k, 0, len(r.Body) - old(p1) - old(n2) - 2, dest.$out[old(dest.$n) + 2 + old(n1) + old(n2) + 2 + k] == r.Body[old(p1) + old(n2) + 2 + k])
 //@   modifies r.Reader.$pos, dest.$n, dest.$out
+
+// BATCH children carry positional values: <n: short> then n times <len: int><len bytes if len > 0>.
+// (Negative lengths are legal: -1 null, -2 unset.) Skipping a value consumes exactly the bytes it
+// declares and fails only when the body is too short.
+//@ func codecs.skipValue [C11, C17]
+//@   let rd = as(source, *FrameBodyReader)
+//@   let p0 = rd.Reader.$pos
+//@   let n = be32s(rd.Body[rd.Reader.$pos], rd.Body[rd.Reader.$pos + 1], rd.Body[rd.Reader.$pos + 2], rd.Body[rd.Reader.$pos + 3])
+//@   requires typeis(source, *FrameBodyReader) && rd != nil && inv(rd)
+//@   ensures inv(rd) && rd.Body == old(rd.Body) && rd.Reader == old(rd.Reader)
+//@   ensures total: (result == nil) == (old(p0) + 4 <= len(rd.Body) && (old(n) <= 0 || old(p0) + 4 + old(n) <= len(rd.Body)))
+//@   ensures consumed: result == nil ==> rd.Reader.$pos == old(p0) + 4 + max(old(n), 0)
+//@   ensures rd.Reader.$pos >= old(p0)
+//@   modifies rd.Reader.$pos
+
+//@ loop codecs.skipPositionalValues #1
+//@   invariant inv(as(source, *FrameBodyReader)) && as(source, *FrameBodyReader).Body == old(as(source, *FrameBodyReader).Body) && as(source, *FrameBodyReader).Reader == old(as(source, *FrameBodyReader).Reader) && as(source, *FrameBodyReader).Reader.$pos >= old(as(source, *FrameBodyReader).Reader.$pos)
+//@   decreases length - i
+
+//@ func codecs.skipPositionalValues [C11, C17]
+//@   let rd = as(source, *FrameBodyReader)
+//@   requires typeis(source, *FrameBodyReader) && rd != nil && inv(rd)
+//@   ensures inv(rd) && rd.Body == old(rd.Body) && rd.Reader == old(rd.Reader) && rd.Reader.$pos >= old(rd.Reader.$pos)
+//@   ensures truncated-count: old(rd.Reader.$pos) + 2 > len(rd.Body) ==> result != nil
+//@   modifies rd.Reader.$pos
